@@ -136,6 +136,13 @@ def check(run):
            (1, ["c1", "s1", 0]), (0, ["-c0"]), (0, ["c0"]), (0, ["s0"]), (2, ["-s2", "-s1", "-c0", "-c1", "-c2"])]
     for l, labs in bad:
         one_case(run, l, default_cart(l), labs, "malformed-or-edge")
+    # the caller rescales / edits the expansions and matrices it obtained (they are return values): later results must not change
+    from checks.common import mutate_returned_spherical_objects
+    nmod = mutate_returned_spherical_objects(4)
+    run.count(f"returned helper objects modified by the caller: {nmod}")
+    for l in range(5):
+        one_case(run, l, default_cart(l), default_sph(l), "after-caller-modified-returned-objects")
+        single_shell_overlap(run, l, rng)
 
 
 def replay(run, rep):
